@@ -227,6 +227,10 @@ class Interp(Engine):
             root = root.value
         if isinstance(root, ast.Name) and root.id in IGNORED_CALL_ROOTS and root.id not in self.frame.env:
             return None
+        # "literal".format(...) builds a log/exception message: ignored effect (arguments not evaluated)
+        if isinstance(n.func, ast.Attribute) and n.func.attr == "format" and \
+                isinstance(n.func.value, ast.Constant) and isinstance(n.func.value.value, str) and not self.spec:
+            return Opaque_("format")
         # spec-only special forms
         if isinstance(n.func, ast.Name):
             sf = B.SPECIAL_FORMS.get(n.func.id)
@@ -412,6 +416,9 @@ class Interp(Engine):
 
     def assign(self, t, v):
         if isinstance(t, ast.Name):
+            lt = getattr(self.frame, "local_types", None)
+            if lt and isinstance(v, ListV) and v.et is None and t.id in lt:
+                v.et = lt[t.id].args[0]
             self.frame.env[t.id] = v
         elif isinstance(t, (ast.Tuple, ast.List)):
             if isinstance(v, OptV):
@@ -724,8 +731,7 @@ class Interp(Engine):
             n = B.iter_len(self, it)
             i = zint(fr.env[ivar])
             self.assume(i >= 0)
-            if not isinstance(it, (ListV,)):
-                self.assume(i <= n)        # immutable iterable: the index never overtakes the length
+            self.assume(i <= n)   # immutable iterable: by construction; list: implicit invariant (obligation below)
             go = self.branch(i < n)
         if not go:
             self.exec_block(s.orelse)
@@ -754,6 +760,9 @@ class Interp(Engine):
             if spec.get("index_name"):
                 fr.env[spec["index_name"]] = nxt
         self.cur_line = line
+        if kind == "for" and isinstance(it, ListV):
+            self.oblige("inv-preserve", zint(fr.env[ivar]) <= B.iter_len(self, it),
+                        "loop%s: index stays within the (possibly mutated) list" % key)
         for text in invs:
             self.oblige("inv-preserve", self.spec_eval(text), "loop%s: %s" % (key, text))
         if spec.get("decreases"):
@@ -813,8 +822,17 @@ class Interp(Engine):
             return self.construct(callee, args, kwargs)
         if isinstance(callee, BoundExt):
             return B.call_method(self, callee.obj, callee.name, args, kwargs)
+        if isinstance(callee, RefV):
+            h = self.reg._hook(callee.cls, "call")
+            if h is None:
+                raise Unsupported("call of an object of class %s (line %d)" % (callee.cls, self.cur_line))
+            if not callee.nn:
+                self.oblige("safe", callee.t != 0, "called object is not None")
+            return h(self, callee, args, kwargs)
         if getattr(callee, "_specfunc", False):
             return callee(self, *args, **kwargs)
+        if self.spec and callee in (Ref, List, Opt, Tup):
+            return callee(*args)
         if getattr(callee, "_lambda", None) is not None:
             return callee(*args)
         return B.call_python(self, callee, args, kwargs)
@@ -971,6 +989,9 @@ class Interp(Engine):
         try:
             if c.setup:
                 c.setup(self)
+            if c.traced:
+                params = [k for k in env if k != "self"]
+                self.ct_append(fv.qual, env.get("self"), env.get(params[0]) if params else None)
             for text in c.requires_at_call():
                 g = self.spec_eval(text)
                 self.cur_line = line
@@ -984,7 +1005,7 @@ class Interp(Engine):
             if which == "normal":
                 res = None
                 if c.returns is not None:
-                    res = self.fresh_val("res_" + fv.qual.replace(".", "_"), c.returns)
+                    res = self.fresh_val_post("res_" + fv.qual.replace(".", "_"), c.returns)
                 env["result"] = res
                 self.assuming += 1
                 try:
@@ -1036,8 +1057,13 @@ class Interp(Engine):
                 obj = self.eval(node.value)
             finally:
                 self.spec -= 1
-            ty = self.field_type(obj.cls, node.attr)
-            self.wr_field(obj, node.attr, self.fresh_val("hv_" + node.attr, ty), ty)
+            _, ty = self.fkey(obj.cls, node.attr)
+            terms = [self.fresh("hv_%s%s" % (node.attr, (".%d" % i) if i else ""), s_)
+                     for i, s_ in enumerate(sorts(ty))]
+            val = unpack(ty, terms, None)      # may be a pre-state object or one allocated by the callee
+            if ty.kind in ("ref", "list", "dict", "ext") and not ty.nullable:
+                self.assume(terms[0] != 0)
+            self.wr_field(obj, node.attr, val, ty)
             return
         if isinstance(node, ast.Name):
             return
